@@ -1,6 +1,7 @@
 import RgVerif.Lemmas.ParWalkSafety
 import RgVerif.Lemmas.ParWalkExec
 import RgVerif.Lemmas.ParWalkLive
+import RgVerif.Lemmas.ParWalkFair
 /-
 C07 — the parallel walker loses / duplicates nothing and terminates under every thread schedule.
 
@@ -124,6 +125,11 @@ theorem driver_steps_are_model_steps {n : Nat} {s s' : State} {w : Nat} {a : Act
     (h : stepFn n s w a = some s') : Step n s w s' :=
   stepFn_sound h
 
+/-- … and it can take every step of the relation (the replay is not restricted to a sub-system). -/
+theorem model_steps_are_driver_steps {n : Nat} {s s' : State} {w : Nat} (h : Step n s w s') :
+    ∃ a, stepFn n s w a = some s' :=
+  stepFn_complete h
+
 /-- `active_workers` counts exactly the workers outside the idle loop that have not seen it reach 0
 (so `fetch_sub` in `deactivate_worker` never wraps), and while nobody is counted the worker whose
 decrement returned 0 exists — it is the one that broadcasts `Quit`. -/
@@ -184,6 +190,34 @@ which every worker has exited (no reachable state is doomed). -/
 theorem can_always_finish {n : Nat} {roots : List Tree} {s : State} (hn : 0 < n)
     (h : Reachable n roots s) : ∃ k s', Run n s k s' ∧ AllExited n s' :=
   can_finish hn (mu n s) s (Nat.le_refl _) h
+
+/-- Termination: every infinite execution (`Exec`: at each time some worker takes a step of the
+model, or everybody has exited) that is *weakly fair* — no worker that has not exited is ignored by
+the scheduler for ever — and in which `Steal::Retry` on a non-empty deque happens only finitely often
+reaches the state in which every worker has exited.
+
+Why fairness: without it the claim is false of the model *and of the code* — see `unfair_spin`: an
+idle worker can go round its idle loop for ever while a worker that holds all the work is never
+scheduled. No scheduler of a real machine does that; "terminates under every interleaving" is read
+as "under every weakly fair interleaving". The `Retry` hypothesis is needed because a steal attempt
+in the model may fail at any time; in crossbeam a `Retry` is caused by a concurrent successful
+operation, of which `bounded_progress` allows only finitely many. -/
+theorem C07_term {n : Nat} {roots : List Tree} {σ : Nat → State} {who : Nat → Nat} (hn : 0 < n)
+    (h0 : Reachable n roots (σ 0)) (he : Exec n σ who) (hf : WeaklyFair n σ who)
+    (hr : FinitelyManyRetries σ who) : ∃ i, AllExited n (σ i) :=
+  fair_terminates hn h0 he hf hr
+
+/-- Unfair spinning is a behaviour of the model: an idle worker whose own deque is empty can take a
+step and then return to exactly the same global state by idle-loop steps alone (a cycle that an
+unfair scheduler may repeat for ever, whatever the other workers hold). -/
+theorem unfair_spin {n : Nat} {s : State} {w : Nat} (hw : w < n) (hpc : s.pc w = .recv true)
+    (hdq : s.dq w = []) :
+    ∃ s1, Step n s w s1 ∧ Stutter s w s1 ∧ StutterPath n w s1 s := by
+  refine ⟨setPc s w (.steal true (order n w)), .popEmpty hdq hw hpc, ?_, ?_⟩
+  · exact stutter_setPc (by rw [hpc]; rfl) rfl
+  · have := path_to_recv hw (setPc s w (.steal true (order n w))) (by simp [Pc.idle])
+    rw [setPc_setPc, setPc_self hpc] at this
+    exact this
 
 /-! Non-vacuity: two workers on the tree `0(1, 2(3))` under the schedule that realises the scenario
 "`active_workers` reaches 0 while an idle thief holds stolen work" run to completion; the hypotheses
